@@ -61,7 +61,9 @@ def _surfaced_is_cause(tr, outcome, raised, env, ex, s):
     e = env["e"].t
     cause = smt.attr_func("__cause__")(e)
     is_wrap = smt.inst_pred("ExecutionError")(e)
-    expected = z3.If(z3.And(is_wrap, smt.truthy(cause)), cause, e)
+    from pyvc.engine import truth
+    from pyvc.values import Val, ANY as _ANY
+    expected = z3.If(z3.And(is_wrap, truth(Val(cause, _ANY), s)), cause, e)
     return raised.exc.t == expected
 
 
@@ -71,7 +73,7 @@ CONTRACTS = {
         params={"self": OBJ("SyncRunnerTemplate"), "graph": GRAPH, "values": OPT(DICT(STR, ANY)), "select": ANY, "on_missing": STR, "on_internal_override": STR,
                 "entrypoint": OPT(STR), "max_iterations": OPT(INT), "error_handling": STR, "event_processors": ANY, "_parent_span_id": OPT(STR), "input_values": DICT(STR, ANY)},
         returns=OBJ("RunResult"),
-        may_raise={"Exception": True},
+        may_raise={"BaseException": True},
         trace=[
             {"name": "C08 validate-before-effects: every validator precedes dispatcher creation / emission / execution; a rejected call has no effect", "check": before_effects(RUN_VALIDATORS, SYNC_EFFECTS)},
             {"name": "C12 RunStart .. exactly one RunEnd on every path; execution between them; shutdown last, at most once", "check": bracket("_emit_run_start_sync", "_emit_run_end_sync", body={"_execute_graph_impl"}, shutdown="_shutdown_dispatcher_sync")},
